@@ -183,7 +183,7 @@ func RunConc(sc *ConcScenario, want Want) *ConcResult {
 	noteKeys := func(recs []*Rec) {
 		for _, r := range recs {
 			switch r.Op.K {
-			case MClear, CClear, MRange, CRange, CItems, MSize, CCount, XPrefillCount, CDeleteExpired, XAdvance, XPass,
+			case MClear, CClear, MRange, CRange, CItems, MSize, CCount, XPrefillCount, CDeleteExpired, XAdvance, XPass, XTick,
 				CSetDefaultExpiration, CDefaultExpiration, CSetCallback, XBulkInsert, XBulkDelete:
 			default:
 				if !isPrefillKey(r.Op.Key) {
@@ -571,7 +571,7 @@ func RunConc(sc *ConcScenario, want Want) *ConcResult {
 
 func keyedOp(k OpKind) bool {
 	switch k {
-	case MClear, CClear, MRange, CRange, CItems, MSize, CCount, XPrefillCount, CDeleteExpired, XAdvance, XPass,
+	case MClear, CClear, MRange, CRange, CItems, MSize, CCount, XPrefillCount, CDeleteExpired, XAdvance, XPass, XTick,
 		CSetDefaultExpiration, CDefaultExpiration, CSetCallback, XBulkInsert, XBulkDelete:
 		return false
 	}
@@ -580,7 +580,7 @@ func keyedOp(k OpKind) bool {
 
 func skipInLin(k OpKind) bool {
 	switch k {
-	case MSize, CCount, XAdvance, CDeleteExpired, XPass, CDefaultExpiration, CSetCallback, CSetDefaultExpiration, XBulkInsert, XBulkDelete, MRange, CRange, CItems:
+	case MSize, CCount, XAdvance, XTick, CDeleteExpired, XPass, CDefaultExpiration, CSetCallback, CSetDefaultExpiration, XBulkInsert, XBulkDelete, MRange, CRange, CItems:
 		return true
 	}
 	return false
